@@ -231,8 +231,8 @@ var (
 
 func run(r *ev.Run) {
 	setupChains()
-	r.Rule("E3 complete products through the real HandleMsg4: (A) opcode 0..255 x message type {absent,0..255} with a rich header; (B) op=1,type in {DISCOVER,REQUEST} x xid{0,ffffffff,01020304} x htype{1,6,255} x hlen{0,6,16,17,255} x flags{0,8000,7fff,ffff} x giaddr{0,set} x ciaddr{0,set} x opt82 x opt61 x chain{empty,range,server_id+range,NAK plugin,nil plugin}; (B2) option 82 of {absent,1,2,100,190,200,255} octets x option 61 of {absent,2,80,255} x option 57 {absent,300,576,1500} x giaddr x type x chain; (B3) the same requests with every send failing / the raw socket refused (EPERM, EACCES): what is handed to the socket still matches; (B5) a client that holds a lease requesting its own / another / an outside / a malformed address (option 50) x flags x giaddr x ciaddr; (B4) every other option code in three payload shapes added to a relayed request; (C) every truncation of 3 seeds. Oracle on raw bytes with an independent parser. Class = chain/opcode class/type class/#replies/reply type.")
-	r.Assume("listener bound to " + bif.Name + "; reply captured at WriteTo or as the L2 frame before the AF_PACKET socket; malformed message-type options (length != 1) and a missing END option are not asserted")
+	r.Rule("E3 complete products through the real HandleMsg4: (A) opcode 0..255 x message type {absent,0..255} with a rich header; (A2) option 53 of 0, 2 or 3 octets and repeated (12 shapes x position) under every chain: never answered; (B) op=1,type in {DISCOVER,REQUEST} x xid{0,ffffffff,01020304} x htype{1,6,255} x hlen{0,6,16,17,255} x flags{0,8000,7fff,ffff} x giaddr{0,set} x ciaddr{0,set} x opt82 x opt61 x chain{empty,range,server_id+range,NAK plugin,nil plugin}; (B2) option 82 of {absent,1,2,100,190,200,255} octets x option 61 of {absent,2,80,255} x option 57 {absent,300,576,1500} x giaddr x type x chain; (B3) the same requests with every send failing / the raw socket refused (EPERM, EACCES): what is handed to the socket still matches; (B5) a client that holds a lease requesting its own / another / an outside / a malformed address (option 50) x flags x giaddr x ciaddr; (B4) every other option code in three payload shapes added to a relayed request; (C) every truncation of 3 seeds. Oracle on raw bytes with an independent parser. Class = chain/opcode class/type class/#replies/reply type.")
+	r.Assume("listener bound to " + bif.Name + "; reply captured at WriteTo or as the L2 frame before the AF_PACKET socket; a missing END option is not asserted")
 	// (A)
 	for op := 0; op < 256; op++ {
 		for mt := -1; mt < 256; mt++ {
@@ -243,6 +243,30 @@ func run(r *ev.Run) {
 				p.Opts = append([]pkt.Opt4{{Code: 53, Data: []byte{byte(mt)}}}, p.Opts...)
 			}
 			eval(r, "empty", p.Bytes(), "")
+		}
+	}
+	// (A2) malformed message types: option 53 that is not exactly one octet (after the
+	// concatenation of repeated instances, RFC 3396) is no message type at all
+	for _, chain := range chainNames {
+		for _, shape := range [][]pkt.Opt4{
+			{{Code: 53, Data: []byte{}}},
+			{{Code: 53, Data: []byte{1, 0}}}, {{Code: 53, Data: []byte{3, 0}}}, {{Code: 53, Data: []byte{1, 1}}}, {{Code: 53, Data: []byte{3, 3}}},
+			{{Code: 53, Data: []byte{1, 3, 0}}}, {{Code: 53, Data: []byte{0, 1}}}, {{Code: 53, Data: []byte{0, 3}}},
+			{{Code: 53, Data: []byte{1}}, {Code: 53, Data: []byte{1}}}, {{Code: 53, Data: []byte{3}}, {Code: 53, Data: []byte{3}}},
+			{{Code: 53, Data: []byte{1}}, {Code: 53, Data: []byte{3}}}, {{Code: 53, Data: []byte{3}}, {Code: 53, Data: []byte{1}}},
+		} {
+			for _, tailFirst := range []bool{false, true} {
+				p := richHeader()
+				rest := []pkt.Opt4{opt82, opt61, {Code: 50, Data: []byte{10, 0, 0, 5}}}
+				if tailFirst {
+					p.Opts = append(append([]pkt.Opt4{}, rest...), shape...)
+				} else if len(shape) == 2 {
+					p.Opts = append(append([]pkt.Opt4{shape[0]}, rest...), shape[1]) // instances apart
+				} else {
+					p.Opts = append(append([]pkt.Opt4{}, shape...), rest...)
+				}
+				eval(r, chain, p.Bytes(), "malformed message-type option")
+			}
 		}
 	}
 	// (B)
